@@ -48,15 +48,21 @@ Record pml_variant := {
   (* `flags[TRANSITION_FOUND] = false` is only emitted `if (_transitions.size() > 0)`: in a document without
      any transition the flag set by the initial entry is never cleared *)
   pv_found_stale : bool;
+  (* writeFSMSelectTransitions writes `(i == I && <event test> && <cond>)` with the text of the cond attribute
+     and no parentheses around it: a condition `x || y` (top-level operator `||`, no outer parentheses in the
+     document) makes the disjunct `(i == I && <event test> && x) || y`, and y alone enables EVERY transition that
+     is active, not pre-empted and of the right spontaneity.  The switch stands for "the document spells such
+     conditions without outer parentheses and the template adds none" *)
+  pv_cond_bare : bool;
   (* event descriptor resolution, see Trie.v *)
   pv_trie : trie_variant
 }.
 Definition pml_as_written : pml_variant :=
   {| pv_in_reads_root := true; pv_initial_break := true; pv_deep_unnegated := true;
-     pv_hist_parent_test := true; pv_hist_or := true; pv_hist_covered := true; pv_hist_inner_first := false; pv_found_stale := true; pv_trie := tv_as_written |}.
+     pv_hist_parent_test := true; pv_hist_or := true; pv_hist_covered := true; pv_hist_inner_first := false; pv_found_stale := true; pv_cond_bare := true; pv_trie := tv_as_written |}.
 Definition pml_repaired : pml_variant :=
   {| pv_in_reads_root := false; pv_initial_break := false; pv_deep_unnegated := false;
-     pv_hist_parent_test := false; pv_hist_or := false; pv_hist_covered := false; pv_hist_inner_first := false; pv_found_stale := false; pv_trie := tv_repaired |}.
+     pv_hist_parent_test := false; pv_hist_or := false; pv_hist_covered := false; pv_hist_inner_first := false; pv_found_stale := false; pv_cond_bare := false; pv_trie := tv_repaired |}.
 
 (* ------------------------------------------------------------------ trace lines of the emitted model *)
 Inductive ptok :=
@@ -287,14 +293,29 @@ Definition pexec_blocks (bs : list block) (s : pstate) : pstate := fold_left (fu
 (* ------------------------------------------------------------------ SELECT_TRANSITIONS *)
 Record psel := { k_found : bool; k_conf : list nat; k_target : list nat; k_exit : list nat; k_trans : list nat }.
 
+(* "is it matching and enabled?": `(false || (i == 0 && ...) || (i == 1 && ...) ...)` evaluated for index i *)
+Definition guard_value (cfg : list nat) (ev : option bytes) (sto : store) (i : nat) : bool :=
+  let evtest := match ev with Some e => resolved_match (guard_literals i) e | None => true end in
+  if pv_cond_bare pv then
+    (evtest && match ft_cond (tr c i) with
+               | Some (BOr x _) => pml_beval (pml_in cfg) sto x
+               | Some cnd => pml_beval (pml_in cfg) sto cnd
+               | None => true
+               end) ||
+    existsb (fun j => match ft_cond (tr c j) with
+                      | Some (BOr _ y) => pml_beval (pml_in cfg) sto y
+                      | _ => false
+                      end) (seq 0 pnt)
+  else
+    evtest && match ft_cond (tr c i) with Some cnd => pml_beval (pml_in cfg) sto cnd | None => true end.
+
 Definition psel_one (cfg : list nat) (ev : option bytes) (sto : store) (a : psel) (i : nat) : psel :=
   let t := tr c i in
   if ft_history t || ft_initial t then a
   else if mem (ft_source t) cfg &&
           negb (mem i (k_conf a)) &&
           (match ev with None => ft_spontaneous t | Some _ => negb (ft_spontaneous t) end) &&
-          (match ev with Some e => resolved_match (guard_literals i) e | None => true end) &&
-          (match ft_cond t with Some cnd => pml_beval (pml_in cfg) sto cnd | None => true end)
+          guard_value cfg ev sto i
   then {| k_found := true;
           k_conf := set_union (k_conf a) (conflicts_of i);
           k_target := set_union (k_target a) (ft_targets t);
